@@ -223,6 +223,7 @@ theorem eval_range_step (f ls : Nat) (n it fc : Node) (t : Ecal.Lex.Tok) (s s1 :
   · simp only [hd, if_true]
     unfold rtErr
     cases it.tok <;> rfl
-  · simp only [hd]; rfl
+  · simp only [hd, Bool.false_eq_true, if_false, ht, beq_self_eq_true, Bool.and_self, if_true]
+    rfl
 
 end Ecal.Props.C04
